@@ -7,6 +7,8 @@ use crate::model::*;
 
 /// bound of the `random` calls planted in unselected `ite` branches
 pub const LAZY_SENTINEL: u64 = 7919;
+/// see ExprCfg::lazy_unassigned
+pub const LAZY_UNASSIGNED: &str = "nvz";
 
 pub const IN_NAMES: [&str; 6] = ["A", "B", "CLK", "D", "S", "EN"];
 pub const IN_ODD: [&str; 5] = ["A-~R", "é", "#1", "loop", "bits"];
@@ -55,6 +57,9 @@ pub struct ExprCfg {
     pub bad_random_bounds: bool,
     /// hazards (division by zero, signExt, random(0)) placed in unselected ite branches only
     pub lazy_hazards: bool,
+    /// among the hazards of unselected ite branches: the variable `nvz`, which the profile binds
+    /// only in a `while(0)` body (a variable for the parser, without a value at run time)
+    pub lazy_unassigned: bool,
     /// shift counts from the boundary set {-1, 0, 1, 63, 64, 65, 127, MIN}
     pub odd_shifts: bool,
     /// every operand that is itself an operation is parenthesised (precedence plays no role)
@@ -150,6 +155,7 @@ impl Cfg {
                 radix: true,
                 bad_random_bounds: false,
                 lazy_hazards: false,
+                lazy_unassigned: false,
                 odd_shifts: false,
                 full_parens: false,
             },
@@ -237,7 +243,12 @@ pub fn gen_signals(ch: &mut Ch, cfg: &Cfg) -> Vec<Sig> {
     }
     // keep the plain names in front so that small choices give plain names
     let ins = pick_names_front(ch, &in_pool, n_in, IN_NAMES.len());
-    let outs = pick_names_front(ch, &out_pool, n_out, OUT_NAMES.len());
+    let mut outs = pick_names_front(ch, &out_pool, n_out, OUT_NAMES.len());
+    // where variables may be named like signals: now and then an output called `n`, like the
+    // implicit counter of `repeat`
+    if cfg.vars_like_signals && !outs.is_empty() && ch.chance(1, 10) {
+        outs[0] = "n".to_string();
+    }
     let bds = pick_names(ch, &BIDIR_NAMES, n_bidir);
     let mut sigs = vec![];
     for n in ins {
@@ -585,7 +596,14 @@ fn gen_expr_inner(ch: &mut Ch, depth: u32, env: &ExprEnv) -> Expr {
         }
         3 => {
             if cfg.lazy_hazards && ch.chance(1, 2) {
-                let haz = match ch.upto(4) {
+                let haz = match ch.upto(if cfg.lazy_unassigned { 5 } else { 4 }) {
+                    4 => {
+                        if ch.chance(1, 2) {
+                            Expr::var(LAZY_UNASSIGNED)
+                        } else {
+                            Expr::bin(BinOp::Add, gen_leaf(ch, env), Expr::un(UnOp::Neg, Expr::var(LAZY_UNASSIGNED)))
+                        }
+                    }
                     0 => Expr::bin(BinOp::Div, Expr::lit(1), Expr::lit(0)),
                     1 => Expr::bin(BinOp::Rem, gen_leaf(ch, env), Expr::lit(0)),
                     2 => Expr::SignExt(Box::new(Expr::lit(1)), Box::new(Expr::lit(2))),
